@@ -139,4 +139,14 @@ CLAIMS = {
        'compiling revision) is proved for a run that reaches the compiler (C19_undisturbed_run_publishes_partial) and checked dynamically for '
        'all kill points (F-C19-1 fixed).',
   technique='Translator from shell to abstract operations + verified checker (Coq) + kill-point enumeration on the real script'),
+ 'C18': dict(
+  text='List-level Gallina model of mergeASAACLs / mergeIOSACLs / the Linux rule loop / the PAN-OS rulebase merge with four theorems for '
+       'every ACL, raw part and permit predicate (every entry exactly once, order inside each part preserved, raw entries first, [APPEND] '
+       'entries behind the last permitting entry and before the trailing non-permitting ones). The effective target printed by drc for a '
+       'device without rules is compared entry by entry with the model and judged by the property predicates in Coq, for ASA (v4, v4+v6, '
+       'raw, [APPEND]), IOS, Linux and PAN-OS, including ACLs without permitting entries and only-[APPEND] parts.',
+  design_ref='DESIGN.md section 4, C18',
+  note='Trusted: Coq kernel; the generator/renderers of vlib/c18.py. NSX raw merge (append to the policy) and the diagnostics for unmergeable '
+       'raw entries are covered by the repository tests and C20 only. F-C18-1..4 fixed.',
+  technique='Coq theorems on a list-level merge model + differential check of the effective target'),
 }
